@@ -336,6 +336,9 @@ func applyKnown(p *idl.Program, c *genCase) {
 			drop("value-type-in-container-const", "value_type_in_container")
 		}
 	}
+	if optOn(c.Options, "with_reflection") && vt.Known(prop, "reflection-same-base-name-in-package") && sameBaseInOnePackage(p) {
+		drop("reflection-same-base-name-in-package", "with_reflection")
+	}
 	if t := optValue(c.Options, "template"); t != "" || optOn(c.Options, "enable_nested_struct") {
 		switch {
 		case c.Backend == "fastgo" && vt.Known(prop, "fastgo-with-slim-or-raw-struct"):
@@ -348,6 +351,36 @@ func applyKnown(p *idl.Program, c *genCase) {
 			drop("raw-struct-default-import", "template", "enable_nested_struct")
 		}
 	}
+}
+
+// goPackageOf mirrors Thrift.GetNamespaceOrReferenceName("go").
+func goPackageOf(f *idl.File) string {
+	ns, found := "", false
+	for _, n := range f.Namespaces {
+		if n.Lang == "go" {
+			return n.Name
+		}
+		if n.Lang == "*" {
+			ns, found = n.Name, true
+		}
+	}
+	if found {
+		return ns
+	}
+	return strings.ToLower(f.Prefix())
+}
+
+// sameBaseInOnePackage: two IDL files with the same base name land in one Go package.
+func sameBaseInOnePackage(p *idl.Program) bool {
+	seen := map[string]bool{}
+	for _, f := range p.Files {
+		k := goPackageOf(f) + "\x00" + f.Prefix()
+		if seen[k] {
+			return true
+		}
+		seen[k] = true
+	}
+	return false
 }
 
 func hasKind(p *idl.Program, k idl.Kind) bool {
@@ -397,7 +430,14 @@ func retypeCrossFileBaseTypedefConsts(p *idl.Program) int {
 		})
 		// the same finding: an enum from another file initialised by number
 		for _, d := range f.Defs {
-			if d.Kind != idl.KConst || d.Value == nil || d.Value.Kind != idl.VInt {
+			if d.Kind != idl.KConst || d.Value == nil {
+				continue
+			}
+			// ... or by the name of a constant that lives in another package than the type
+			if d.Value.RefConst != nil && d.Type.Ref != nil && d.Type.Ref.File != f && d.Value.RefConst.File != d.Type.Ref.File && d.Type.FinalCat() == "enum" {
+				d.Value = &idl.Value{Kind: idl.VInt}
+			}
+			if d.Value.Kind != idl.VInt {
 				continue
 			}
 			ft := d.Type.Final()
